@@ -221,7 +221,13 @@ func runC11(r *Run, replay *Case) {
 		}
 		c.Oracle = verdict
 		r.Add(c)
+		if verdict.OK && strings.HasPrefix(g.desc, "layout-slot:") {
+			// it returned in the child process: the same files through the Lean layout loop + evaluator (what the page hands to its layout is
+			// placed as parsed, once per use)
+			r.Add(layoutPageCase(g.desc, g.files, "p.vuego", map[string]any{"items": []any{1, 2}}))
+		}
 	}
+	r.Flush()
 	for _, tpl := range c11Templates {
 		for _, x := range c11Data() {
 			r.Add(c11TypedEval(tpl, x))
